@@ -202,6 +202,34 @@ theorem C17_symbols_registry_add (o : Obj) (objs : List Obj) (p : String → Boo
     · simp
     · exact List.mem_cons_of_mem _ ih
 
+/-- the registry of loaded entries (symbol table computed once per object, as `DebugInformationBuilder::build`
+does) answers exactly like the specification-level `getSymbols` over the objects -/
+theorem C17_symbols_loaded_registry (objs : List Obj) (p : String → Bool) :
+    getSymbolsE (objs.map load) p = getSymbols objs p := by
+  unfold getSymbolsE getSymbols
+  rw [List.flatMap_map]
+  rfl
+
+theorem C17_symbols_registry_load_add (o : Obj) (objs : List Obj) :
+    regAddE (load o) (objs.map load) = (regAdd o objs).map load := by
+  induction objs with
+  | nil => simp [regAddE, regAdd]
+  | cons x rest ih =>
+    simp only [List.map_cons, regAddE, regAdd, load]
+    split
+    · simp [load]
+    · simp only [List.map_cons, List.cons.injEq]
+      exact ⟨rfl, ih⟩
+
+theorem C17_symbols_registry_load_remove (f : String) (objs : List Obj) :
+    regRemoveE f (objs.map load) = (regRemove f objs).map load := by
+  induction objs with
+  | nil => simp [regRemoveE, regRemove]
+  | cons x rest ih =>
+    unfold regRemoveE regRemove at ih ⊢
+    simp only [List.map_cons, List.filter_cons, load] at ih ⊢
+    split <;> simp_all [load]
+
 /-- the regex class the model evaluates: an alternative matches iff the literal is the whole name / a prefix /
 a suffix / an infix of the name, according to its anchors -/
 theorem C17_pattern_semantics (a : Alt) (s : List Char) :
